@@ -137,6 +137,74 @@ def candidates(case, protect=('knobs', 'seed', 'prop', 'exc_pool')):
             yield _set(case, path, node[:1])
 
 
+CAND_TIMEOUT = 20.0
+
+
+def _run_forked(mod, c, clause, sig, timeout):
+    import json
+    import os
+    import select
+    import signal
+    rfd, wfd = os.pipe()
+    pid = os.fork()
+    if pid == 0:
+        code = 0
+        try:
+            os.close(rfd)
+            res = None
+            try:
+                out = mod.run_case(c)
+                for v in out['violations']:
+                    if v['clause'] == clause and v['sig'] == sig:
+                        res = v
+                        break
+            except BaseException:
+                res = None
+            data = json.dumps(res, default=str).encode()
+            while data:
+                n = os.write(wfd, data[:65536])
+                data = data[n:]
+        except BaseException:
+            code = 1
+        finally:
+            os._exit(code)
+    os.close(wfd)
+    chunks = []
+    deadline = time.time() + timeout
+    timed_out = False
+    try:
+        while True:
+            left = deadline - time.time()
+            if left <= 0:
+                timed_out = True
+                break
+            ready, _, _ = select.select([rfd], [], [], left)
+            if not ready:
+                timed_out = True
+                break
+            b = os.read(rfd, 1 << 16)
+            if not b:
+                break
+            chunks.append(b)
+    finally:
+        os.close(rfd)
+        if timed_out:
+            try:
+                os.kill(pid, signal.SIGKILL)
+            except OSError:
+                pass
+        try:
+            os.waitpid(pid, 0)
+        except OSError:
+            pass
+    if timed_out:
+        return None
+    try:
+        return json.loads(b''.join(chunks).decode())
+    except ValueError:
+        return None
+
+
 def minimise(mod, case, viol, budget_s=40, max_runs=2500):
     clause, sig = viol['clause'], viol['sig']
     t0 = time.time()
@@ -145,14 +213,11 @@ def minimise(mod, case, viol, budget_s=40, max_runs=2500):
     custom = getattr(mod, 'shrink_candidates', None)
 
     def still_fails(c):
-        try:
-            r = mod.run_case(c)
-        except BaseException:
-            return None
-        for v in r['violations']:
-            if v['clause'] == clause and v['sig'] == sig:
-                return v
-        return None
+        # every candidate runs in a forked child with a wall-clock limit: a shrunk case can be
+        # pathological in ways generated ones never are (e.g. a bare S as a spec makes the scope the
+        # target, and glom's trace then spends minutes on repr(scope)); a hang must cost one
+        # candidate, not the batch
+        return _run_forked(mod, c, clause, sig, CAND_TIMEOUT)
 
     # make sure the recorded case fails at all (and get a digest for it)
     v0 = still_fails(best)
